@@ -104,12 +104,14 @@ theorem orderDesc_head {l : List (ERow D)} (h : l ≠ []) :
       exact this
     · omega
 
+/-- `get_events(limit=1)` without bounds: the first row of the whole bucket in
+    `ORDER BY starttime DESC, id DESC` (repaired, F22: no `endtime >= 0` filter) -/
 theorem getEvents_one {s : St D} {b : String} {r : Int} (hr : rowOf s b = some r) :
-    getEvents s b 1 none none =
-      ((orderDesc ((rowsOf s r).filter (fun row => decide (row.en ≥ 0)))).map toEv).take 1 := by
+    getEvents s b 1 none none = ((orderDesc (rowsOf s r)).map toEv).take 1 := by
   unfold getEvents
   rw [if_neg (by decide), hr]
   simp only [Bool.and_true]
+  rw [List.filter_eq_self.mpr (fun _ _ => rfl)]
   unfold applyLimit
   rw [if_neg (by decide), if_neg (by decide), if_neg (by decide)]
   rfl
@@ -133,11 +135,12 @@ theorem replaceLast_eq_replace {s : St D} (hI : Inv s) {b : String} {r : Int} {t
   · rw [if_neg hxi, if_neg (fun h => hxi h.1)]
 
 /-- `replace_last`, for every state satisfying `Inv`: the rewritten event `t` is a newest one
-    (greatest timestamp); it is the one `get_events(limit=1)` returns provided it does not end
-    before the epoch (the read's default lower bound `endtime >= 0` hides it otherwise). -/
+    (greatest timestamp) and it is the one `get_events(limit=1)` returns (repaired, F22: the
+    unbounded read has no lower bound, so this holds wherever the event ends; before the repair the
+    read conjunct carried the hypothesis `0 ≤ t.ts + t.dur`). -/
 theorem replaceLast_view {s : St D} {b : String} {m : Meta} {es : List (Ev D)} (hI : Inv s)
     (hv : view s b = some (m, es)) (hne : es ≠ []) (e : Ev D) :
-    ∃ t, Spec.IsNewest es t ∧ (0 ≤ t.ts + t.dur → getEvents s b 1 none none = [t]) ∧
+    ∃ t, Spec.IsNewest es t ∧ getEvents s b 1 none none = [t] ∧
       view (replaceLast s b e) = Spec.replaceId (view s) b (t.id.getD 0) e := by
   obtain ⟨br, hbr, _, rfl⟩ := view_some_iff.mp hv
   have hr := rowOf_of_find hbr
@@ -155,46 +158,30 @@ theorem replaceLast_view {s : St D} {b : String} {m : Meta} {es : List (Ev D)} (
     have := hM.2 y hy
     show y.st ≤ t.st
     omega
-  · intro hen
-    have hen : 0 ≤ t.en := by
-      have : t.st + (t.en - t.st) = t.en := by omega
-      rw [← this]; exact hen
-    rw [getEvents_one hr]
-    have htm : t ∈ (rowsOf s br.rowid).filter (fun row => decide (row.en ≥ 0)) := by
-      rw [List.mem_filter, decide_eq_true_eq]
-      exact ⟨hM.1, hen⟩
-    have hne' : (rowsOf s br.rowid).filter (fun row => decide (row.en ≥ 0)) ≠ [] := by
-      intro h0; rw [h0] at htm; cases htm
-    obtain ⟨t1, rest, ho, hM1⟩ := orderDesc_head hne'
-    have hsub : ∀ x ∈ (rowsOf s br.rowid).filter (fun row => decide (row.en ≥ 0)), x ∈ rowsOf s br.rowid :=
-      fun x hx => (List.mem_filter.mp hx).1
-    have hu : ∀ x ∈ (rowsOf s br.rowid).filter (fun row => decide (row.en ≥ 0)),
-        ∀ y ∈ (rowsOf s br.rowid).filter (fun row => decide (row.en ≥ 0)), x.id = y.id → x = y :=
-      fun x hx y hy => hI.eid_uniq x (List.mem_filter.mp (hsub x hx)).1 y (List.mem_filter.mp (hsub y hy)).1
-    have := isMax_unique hu hM1 (isMax_sub hsub htm hM)
+  · rw [getEvents_one hr]
+    obtain ⟨t1, rest, ho, hM1⟩ := orderDesc_head hrows
+    have hu : ∀ x ∈ rowsOf s br.rowid, ∀ y ∈ rowsOf s br.rowid, x.id = y.id → x = y :=
+      fun x hx y hy => hI.eid_uniq x (List.mem_filter.mp hx).1 y (List.mem_filter.mp hy).1
+    have := isMax_unique hu hM1 hM
     subst this
     rw [ho]
     rfl
   · rw [replaceLast_eq_replace hI hr ht e]
     exact replace_view hI b t.id e
 
-/-- the requested shape, under the hypothesis the model needs: no event of the bucket ends before
-    the epoch -/
-theorem replaceLast_view_partial {s : St D} {b : String} {m : Meta} {es : List (Ev D)} (hI : Inv s)
-    (hv : view s b = some (m, es)) (hne : es ≠ []) (hpos : ∀ x ∈ es, 0 ≤ x.ts + x.dur) (e : Ev D) :
-    ∃ t, Spec.IsNewest es t ∧ getEvents s b 1 none none = [t] ∧
-      view (replaceLast s b e) = Spec.replaceId (view s) b (t.id.getD 0) e := by
-  obtain ⟨t, h1, h2, h3⟩ := replaceLast_view hI hv hne e
-  exact ⟨t, h1, h2 (hpos t h1.1), h3⟩
-
-/-- without that hypothesis the read part is false: one bucket, one event ending before the epoch;
-    `get_events(limit=1)` returns nothing although the bucket is not empty -/
+/-! History of repair F22. Before the repair the read conjunct of `replaceLast_view` was false
+    without "no event of the bucket ends before the epoch" (`replaceLast_view_partial` carried that
+    hypothesis, `replaceLast_read_counterexample` / `replaceLast_view_unconditional_false` proved it
+    necessary): on the state below — one bucket, one event ending before the epoch —
+    `get_events(limit=1)` returned nothing although the bucket is not empty. The same witness now
+    shows the repaired behaviour. -/
 def cexLast : St Unit :=
   { buckets := [⟨1, "a", default⟩], events := [⟨1, 1, -10, -5, ()⟩], seqB := 1, seqE := 1 }
 
-theorem replaceLast_read_counterexample :
+/-- history of repair F22: on the former counterexample the limit-1 read now returns the event -/
+theorem replaceLast_read_before_epoch_now_read :
     view cexLast "a" = some (default, [{ id := some 1, ts := -10, dur := 5, data := () }]) ∧
-      getEvents cexLast "a" 1 none none = [] := by
+      getEvents cexLast "a" 1 none none = [{ id := some 1, ts := -10, dur := 5, data := () }] := by
   constructor <;> rfl
 
 theorem cexLast_inv : Inv cexLast := by
@@ -208,16 +195,12 @@ theorem cexLast_inv : Inv cexLast := by
     subst hx
     decide
 
-/-- hence the requested statement without the extra hypothesis is false of the model -/
-theorem replaceLast_view_unconditional_false :
-    ¬ (∀ (s : St Unit) (b : String) (m : Meta) (es : List (Ev Unit)) (e : Ev Unit), Inv s →
-        view s b = some (m, es) → es ≠ [] →
-        ∃ t, Spec.IsNewest es t ∧ getEvents s b 1 none none = [t] ∧
-          view (replaceLast s b e) = Spec.replaceId (view s) b (t.id.getD 0) e) := by
-  intro h
-  obtain ⟨t, _, h2, _⟩ := h cexLast "a" default _ ⟨none, 0, 0, ()⟩ cexLast_inv
-    replaceLast_read_counterexample.1 (by simp)
-  rw [replaceLast_read_counterexample.2] at h2
-  cases h2
+/-- `replaceLast_view` instantiated on that state: the event it rewrites is the pre-1970 event,
+    and that is what the limit-1 read returns -/
+example : ∃ t, Spec.IsNewest [({ id := some 1, ts := -10, dur := 5, data := () } : Ev Unit)] t ∧
+    getEvents cexLast "a" 1 none none = [t] ∧
+    view (replaceLast cexLast "a" ⟨none, 0, 0, ()⟩)
+      = Spec.replaceId (view cexLast) "a" (t.id.getD 0) ⟨none, 0, 0, ()⟩ :=
+  replaceLast_view cexLast_inv replaceLast_read_before_epoch_now_read.1 (by simp) _
 
 end Aw.Store.Sqlite
